@@ -270,6 +270,12 @@ fn generate_deserialize_with_derive(
                 field.attrs.retain(|attr| !attr.path().is_ident("zlink"));
                 field.attrs.push(parse_quote!(#[serde(rename = #name_str)]));
             }
+        } else if matches!(variant.fields, Fields::Unit) {
+            // An error without parameters may come with `parameters` absent, `null` or `{}`: a plain
+            // unit variant would refuse the empty object.
+            let no_params: syn::FieldsUnnamed =
+                parse_quote!((core::option::Option<__ZlinkNoParams>));
+            variant.fields = Fields::Unnamed(no_params);
         }
     }
 
@@ -302,7 +308,7 @@ fn generate_deserialize_with_derive(
             let variant_name = &variant.ident;
             match &variant.fields {
                 Fields::Unit => quote! {
-                    __ZlinkDeserHelper::#variant_name => #name::#variant_name
+                    __ZlinkDeserHelper::#variant_name(_) => #name::#variant_name
                 },
                 Fields::Named(fields) => {
                     let field_names: Vec<_> = fields
@@ -331,6 +337,9 @@ fn generate_deserialize_with_derive(
             where
                 D: serde::Deserializer<'de>,
             {
+                #[derive(serde::Deserialize)]
+                struct __ZlinkNoParams {}
+
                 #[derive(serde::Deserialize)]
                 #[serde(tag = "error", content = "parameters")]
                 enum __ZlinkDeserHelper #orig_impl_generics #orig_where_clause {
